@@ -44,9 +44,9 @@ var etypes = []int{18, 17, 19, 20, 16, 23}
 func Meta() core.Meta {
 	return core.Meta{
 		Engine: "c10", Property: "C10", Level: "exploration",
-		Rule:        "case = one run: a real client configured from a generated krb5.conf (etype lists, forwardable/proxiable/canonicalize, renew_lifetime, ticket_lifetime, noaddresses, transport) with a keytab or password credential performs 3-30 operations (login, service-ticket requests for repeated and new SPNs in its own and in foreign realms, waits that land before/at/after ticket and TGT end times, renewal points and renew-till, destroy) against reference KDCs with a drawn policy (pre-authentication and hint layout, salts and iteration counts, maximum lives, optional starttime, address copying) and referral chains of length 0-8 or a cycle; distinct = distinct (configuration class, policy class, operation/outcome sequence); non-trivial = at least one ticket request after a wait, a renewal, a referral or a pre-authentication round trip",
+		Rule:        "case = one run: a real client configured from a generated krb5.conf (etype lists, forwardable/proxiable/canonicalize, renew_lifetime, ticket_lifetime, noaddresses, transport) with a keytab or password credential or a credential cache written by the reference implementation performs 3-30 operations (login, service-ticket requests for repeated and new SPNs in its own and in foreign realms, waits that land before/at/after ticket and TGT end times, renewal points and renew-till, destroy) against reference KDCs with a drawn policy (pre-authentication and hint layout, salts and iteration counts, maximum lives, optional starttime, address copying) and referral chains of length 0-8 or a cycle; distinct = distinct (configuration class, policy class, operation/outcome sequence); non-trivial = at least one ticket request after a wait, a renewal, a referral or a pre-authentication round trip",
 		SeededQuick: 2500, SeededThorough: 150000,
-		WorkloadProbes: []string{"served-from-cache", "requested-afresh-after-expiry", "tgt-renewed-by-library", "relogin-after-tgt-expiry", "referral-chain-3plus", "referral-cycle", "preauth-with-nondefault-salt", "renewable-requested", "wait-lands-within-1s-of-end", "destroy-then-use"},
+		WorkloadProbes: []string{"served-from-cache", "requested-afresh-after-expiry", "tgt-renewed-by-library", "relogin-after-tgt-expiry", "referral-chain-3plus", "referral-cycle", "preauth-with-nondefault-salt", "renewable-requested", "wait-lands-within-1s-of-end", "destroy-then-use", "credential-cache-client"},
 		Components: map[string]string{
 			"client.Login/AffirmLogin/GetServiceTicket/GetCachedTicket/Destroy, session auto-renewal goroutines, ticket cache, NewASReq/NewTGSReq/setPAData, network code, krb5.conf parser, keytab parser": "real",
 			"sync in client/session.go, client/cache.go": "shim (seeded yields at every lock boundary)",
@@ -86,7 +86,7 @@ func Gen(caseID, tier string) (json.RawMessage, error) {
 		return nil, fmt.Errorf("c10 has no sweep")
 	}
 	r := core.NewRng(n).Derive("c10")
-	tp := Tape{Engine: "c10", RunSeed: n, Cred: r.Pick("keytab", "keytab", "password")}
+	tp := Tape{Engine: "c10", RunSeed: n, Cred: r.Pick("keytab", "keytab", "password", "keytab", "password", "ccache")}
 	c := &tp.Conf
 	c.DefaultRealm = "SIM.TEST"
 	c.TktEtypes = pickEtypes(r)
